@@ -1,6 +1,6 @@
 """C02 The hash equals the value defined by the written specification."""
 import astq
-from rules import aes, argon, blake, decode, driver, dsinit, interpsem, spec, sshash
+from rules import aes, argon, blake, decode, driver, dsinit, interpsem, spec, sshash, x86loop, rtpreserve, a64sem, a64hsem, rvhsem, x86hsem, a64dsread, rvdsread
 
 LEVEL = 'other'
 TECHNIQUE = 'constant-table and step-sequence agreement between doc/specs.md (parsed tables, hex blocks, lane diagrams) and the resolved AST / assembled objects; FIPS-197 decomposition for the AES round'
@@ -13,6 +13,9 @@ CLAIM = ('Decides statically every statement doc/specs.md makes in machine-reada
 LEVEL_NOTE = 'Trusted: the specification text as oracle; clang AST; numeric behaviour of the arithmetic executors, Blake2b compression and Argon2 (their constants are checked in C10/C11).'
 EXPLANATION = ('B2-CONST/COMPRESS/UPDATE, A2-SKELETON/XOR/INDEX/H0/HPRIME, SPEC-SSTABLES, SS-EXEC, BIND-KEY (shared with C09-C11, C03), SPEC-CONFIG, SPEC-MASKS, SPEC-VMPROG, SPEC-REGFILE, SPEC-LOOP, DRV-SEQ, SPEC-FREQ/DEC-OPERANDS/MEM-LEVEL/CBR-BITS, SPEC-AESKEYS/PATTERN + AES-ROUND, SPEC-BLAKEGEN, SPEC-ARGON, SPEC-DSCONST/DS-ITEM. LW-SOUND/LW-SPEC and RCP-NOOP (spec 5.4.2 / 5.2.6), DS-RANGE-EVAL (spec 7.3, item number = index for every split).'
          ' INT-EXEC, FP-EXEC.')
+
+CLAIM += (' The engines that compute the hash are held against the same specification sections: what the x86-64, A64 and RV64 back-ends emit for the integer, memory-form and (x86) floating-point instructions (X86- / A64- / RV-HSEM, -MEM-HSEM, X86-FP-HSEM, A64-IMMHELP), the hand-written dataset reads (A64- / RV-DSREAD-HSEM) and the order of the end-of-iteration stores - r0-r7 before f0-f3, because the two scratchpad lines can coincide (X86-LOOPSTORE, A64- / RV-RT-STOREORDER).')
+EXPLANATION += ' X86-HSEM/-MEM/-FP, A64-HSEM/-MEM, A64-IMMHELP, RV-HSEM/-MEM, A64-/RV-DSREAD-HSEM, X86-LOOPSTORE, A64-/RV-RT-STOREORDER.'
 
 
 def run(ctx, R):
@@ -48,3 +51,17 @@ def run(ctx, R):
     driver.rule_bind_key(ctx, R, F)
     interpsem.rule_int_exec(ctx, R, F)
     interpsem.rule_fp_exec(ctx, R, astq.Facts(ctx, 'K1'), F)
+    # the engines that compute the hash: what each JIT back-end emits, and the hand-written loop halves, against the same specification sections
+    x86hsem.rule_hsem(ctx, R)
+    x86hsem.rule_mem_hsem(ctx, R)
+    x86hsem.rule_fp_hsem(ctx, R)
+    x86loop.rule_loopstore(ctx, R)
+    a64hsem.rule_hsem(ctx, R)
+    a64sem.rule_immhelp(ctx, R)
+    a64hsem.rule_mem_hsem(ctx, R)
+    a64dsread.rule_dsread(ctx, R)
+    rtpreserve.rule_store_order(ctx, R, 'a64')
+    rvhsem.rule_hsem(ctx, R)
+    rvhsem.rule_mem_hsem(ctx, R)
+    rvdsread.rule_dsread(ctx, R)
+    rtpreserve.rule_store_order(ctx, R, 'rv64')
